@@ -304,3 +304,15 @@ reg("C04", "c04",
     "the mock repository; TLC accepts a session only if every Append, Commit and Read event satisfies the specification.",
     "Digests (SHA-256 of a canonical rendering) stand for payloads; hash of the stored form recomputed by the harness.",
     "DESIGN.md section 4, C04")
+
+reg("C19", "c19",
+    "TLA+ spec Lock.tla model-checked by TLC; every enumerated schedule executed with real git-bug processes",
+    "TLC checks on all orders of open / close / kill of two long-lived holders and of short commands that at most one live process "
+    "owns the lock, that only its owner's exit removes a live lock, that stale locks are recovered and that every command "
+    "releases the lock, and prints each behaviour with what every step must report. The harness runs each schedule with the built "
+    "git-bug binary on one repository (`webui --no-open` holders stopped by SIGINT or SIGKILL; `bug`, `bug show <unknown>` and `bug "
+    "rm` without a configured identity as commands that succeed, fail in RunE, fail in the pre-run after the cache was opened) "
+    "and compares exit status, the refusal message (it must name the live holder's pid) and the content of the lock file after "
+    "every step.",
+    "The check-then-write window inside one open is not scheduled (the code documents it as racy); main claim is about completed "
+    "opens, closes and kills.", "DESIGN.md section 4, C19")
